@@ -5,7 +5,8 @@ package engine_test
 // Glue of the C14 harness: package engine cannot import services/retention in its own test files
 // (retention imports engine), the external test package can. It hands the in-package harness a
 // constructor for the REAL retention service wired to the harness catalogue adapter and the real
-// engine; the returned function is Service.handle.
+// engine; the returned functions are Service.handle and a rendering of what the service remembers
+// between two checks (for the state digest).
 
 import (
 	"time"
@@ -15,10 +16,10 @@ import (
 )
 
 func init() {
-	engine.VerifC14NewService = func(mc engine.VerifC14MetaClient, e engine.VerifC14Engine, interval time.Duration) func() {
+	engine.VerifC14NewService = func(mc engine.VerifC14MetaClient, e engine.VerifC14Engine, interval time.Duration) (func(), func() string) {
 		s := retention.NewService(interval)
 		s.MetaClient = mc
 		s.Engine = e
-		return s.VerifHandle
+		return s.VerifHandle, s.VerifHiddenState
 	}
 }
